@@ -18,6 +18,8 @@ IdentOf(n) == CASE n = "a" -> [s |-> <<"a">>, raw |-> FALSE]
                 [] n = "x_" -> [s |-> <<"x","_">>, raw |-> FALSE]
                 [] n = "_lead" -> [s |-> <<"_","l","e","a","d">>, raw |-> FALSE]
                 [] n = "http_url_v2" -> [s |-> <<"h","t","t","p","_","u","r","l","_","v","2">>, raw |-> FALSE]
+                [] n = "user_id" -> [s |-> <<"u","s","e","r","_","i","d">>, raw |-> FALSE]
+                [] n = "id" -> [s |-> <<"i","d">>, raw |-> FALSE]
 RenameOf(n) == CASE n = "none" -> None
                  [] n = "other" -> <<"o","t","h","e","r">>
                  [] n = "fooBar" -> <<"f","o","o","B","a","r">>
@@ -25,6 +27,7 @@ RenameOf(n) == CASE n = "none" -> None
                  [] n = "Foo_Bar-2" -> <<"F","o","o","_","B","a","r","-","2">>
                  [] n = "class" -> <<"c","l","a","s","s">>
                  [] n = "_x" -> <<"_","x">>
+                 [] n = "parentId" -> <<"p","a","r","e","n","t","I","d">>
 
 Init == c \in [kind : {"struct", "variant"}, ident : Idents, rename : Renames, rule : RuleSet,
                enum_rule : EnumRules, spelling : Spellings]
@@ -35,8 +38,11 @@ Str(s) == IF s = <<>> THEN "" ELSE s[1] \o Str(Tail(s))
 
 Container == [kind |-> c.kind, rename_all |-> c.rule, variant_rename_all |-> c.rule]
 Neighbour == <<"p","l","a","i","n","_","o","n","e">>
+\* every case is generated under each configuration; the JSON key never depends on it. go_acronyms: the file-only Go option
+\* uppercase_acronyms = ["ID", "URL", "API"], which re-spells Go IDENTIFIERS (UserID) - not the json tag
+Configs == {"default", "prefix", "go_acronyms"}
 Emit == (c.kind = "struct" => c.enum_rule = "none") =>
-    PrintT(<<"REPLAY", ToJson([case |-> c,
+    PrintT(<<"REPLAY", ToJson([case |-> c, configs |-> Configs,
         keys |-> << Str(FieldWire(IdentOf(c.ident).s, RenameOf(c.rename), RuleForField(Container))),
                     Str(FieldWire(Neighbour, None, RuleForField(Container))) >>])>>)
 =============================================================================
